@@ -735,6 +735,8 @@ pub fn run(out: &mut Out, tier: &str, seed: u64, prop: &str) {
             "requests-2.26.0.tar.gz", "foo.whl", "x.zip", "a.tar.bz2", "a.tgz", "pkg-1.0.tar.xz", "A.TAR.GZ", "a.tar", "a.tbz", "a.tar.lzma", "dir/a.whl", "~/x", "\\\\server\\share", "foo.tar.gz.sig",
             "${VP_HOME_DIR}/x", "a.tlz", "a.txz", "a.tar.lz", "b.b.zip", "n.gz", "tar.gz", "x.tar.gz2",
             // non-ASCII text: byte lengths and char counts differ
+            // a closing bracket that closes nothing (the bracket depth of the token scan must not go below zero)
+            "./dir]/pkg.whl", "https://example.org/a]b/pkg-1.0.whl", "/x]]/y.tar.gz",
             // archive file names that are not package names (local version `+`, leading `_`, non-ASCII letter): the archive
             // extension alone decides, with or without an extras suffix
             "torch-2.1.0+cpu-cp310-cp310-linux_x86_64.whl", "_private-1.0.zip", "na\u{ef}ve-1.0.whl", "a+b.tar.gz", "pkg-1.0+local.tar.bz2",
